@@ -115,6 +115,10 @@ func init() {
 		g(c, "c04Noop", c04Noop)
 		g(c, "gStamp", gStamp)
 		g(c, "c10Gate", c10Gate)
+		// entries handed out (messages, Ready) are never rewritten in place by the storage or the unstable log
+		c.OnlyRules = map[string]bool{"C18.A": true}
+		g(c, "c18Storage", c18Storage)
+		c.OnlyRules = nil
 	}})
 	register(&PropertyRule{ID: "C13", Explain: "structural necessary conditions of C13 (configuration algebra): see DESIGN.md §5 C13", Run: func(c *Check) {
 		g(c, "c13ConfAlgebra", c13ConfAlgebra)
